@@ -189,8 +189,24 @@ pub struct Stats {
 }
 
 fn run_pair(kind: Kind, with_conflict: bool, lines: &[String], v: &Verdicts, stats: &Mutex<Stats>) {
+    run_pair_on(kind, with_conflict, false, lines, v, stats)
+}
+
+/// `secondary`: the twins are secondaries; what they forward to their primary is part of the observation (a write to a $$
+/// key that is refused locally but forwarded would be applied cluster-wide).
+fn run_pair_on(kind: Kind, with_conflict: bool, secondary: bool, lines: &[String], v: &Verdicts, stats: &Mutex<Stats>) {
     let a = build(0, kind, with_conflict);
     let b = build(1, kind, with_conflict);
+    let mut links = vec![];
+    if secondary {
+        for n in [&a, &b] {
+            let (tx, rx) = futures::channel::mpsc::channel::<String>(10_000);
+            n.dbs.add_cluster_member(nundb::bo::ClusterMember { name: "10.1.1.1:3014".to_string(), role: nundb::bo::ClusterRole::Primary, sender: Some(tx) });
+            n.set_role(nundb::bo::ClusterRole::Secoundary);
+            links.push(rx);
+        }
+    }
+    let mut forwarded_secure: Option<(String, String)> = None;
     let before = [secure_dump(&a), secure_dump(&b)];
     let mut traces: Vec<Vec<(String, String, Vec<String>)>> = vec![];
     let mut panicked = None;
@@ -206,7 +222,18 @@ fn run_pair(kind: Kind, with_conflict: bool, lines: &[String], v: &Verdicts, sta
             let r = std::panic::catch_unwind(std::panic::AssertUnwindSafe(|| s.call_raw(&dbs, l)));
             match r {
                 Ok(r) => {
-                    let pushed: Vec<String> = s.drain().iter().map(|p| normalize(p)).collect();
+                    let mut pushed: Vec<String> = s.drain().iter().map(|p| normalize(p)).collect();
+                    if secondary {
+                        while let Ok(Some(m)) = links[i].try_next() {
+                            // the key a forwarded message acts on: replicate* <db> <key> ..., resolve <id> <db> <key> ...
+                            let w: Vec<&str> = m.split(' ').collect();
+                            let key = if w.first().map(|x| x.starts_with("replicate")).unwrap_or(false) { w.get(2) } else if w.first() == Some(&"resolve") { w.get(3) } else { None };
+                            if forwarded_secure.is_none() && key.map(|k| k.starts_with("$$")).unwrap_or(false) {
+                                forwarded_secure = Some((l_raw.clone(), m.clone()));
+                            }
+                            pushed.push(format!("->primary: {}", normalize(&m)));
+                        }
+                    }
                     tr.push((l_raw.clone(), normalize(&resp_str(&r)), pushed));
                     if culprit.is_none() && secure_dump(node) != before[i] {
                         culprit = Some(l_raw.clone());
@@ -250,6 +277,9 @@ fn run_pair(kind: Kind, with_conflict: bool, lines: &[String], v: &Verdicts, sta
     if let Some((_i, l, msg)) = panicked {
         v.report(json!({"check": "twin", "problem": "panic", "word": l.split(' ').next().unwrap_or(""), "panic": msg.split(':').next().unwrap_or("")}), replay("command panicked"));
         return;
+    }
+    if let Some((l, m)) = &forwarded_secure {
+        v.report(json!({"check": "twin", "problem": "secure-key-write-forwarded-to-the-primary-by-non-admin", "word": l.split(' ').next().unwrap_or(""), "session": format!("{:?}", kind)}), replay(&format!("'{}' made the secondary send '{}' to its primary", l, m)));
     }
     // 1. noninterference
     if traces[0] != traces[1] {
@@ -363,7 +393,11 @@ pub fn run(tier: &str) -> i32 {
                 if i >= cases.len() {
                     break;
                 }
-                run_pair(cases[i].0, cases[i].1, &cases[i].2, v, stats);
+                if i % 3 == 2 {
+                    run_pair_on(cases[i].0, cases[i].1, true, &cases[i].2, v, stats);
+                } else {
+                    run_pair(cases[i].0, cases[i].1, &cases[i].2, v, stats);
+                }
             });
         }
     });
@@ -374,7 +408,7 @@ pub fn run(tier: &str) -> i32 {
     ev.set("sessions_over_real_transports", iso.to_json());
     ev.evaluations = st.sequences;
     ev.distinct_nontrivial = st.cells.len() as u64;
-    ev.rule = format!("twin runs: {} systematic sequences (every one of {} command templates alone and after a session-changing command, for db-token / user-token / no-db sessions, with and without an unresolved administrator conflict on a $$ key of an arbiter database) + {} seeded random sequences of length 2-6 over the templates and over every parser command word ({} words incl. an unknown one) with 0-4 arguments from a pool of $$ keys, patterns, names and numbers; distinct_nontrivial = distinct (command word, argument position holding a $$ key, session kind) cells executed; + {} non-administrator sessions over the real TCP / HTTP / WebSocket servers of one node, each after / between administrator sessions over the same servers (12 administrator requests first in every other round so that every HTTP worker has served one): no reply may contain the current $$ value or an unnamed $$ key name and the $$ keys are re-read after every session", systematic, tmpl.len(), n_random, words.len(), iso.other_sessions);
+    ev.rule = format!("twin runs (every third pair of twins are secondaries whose link to the primary is observed: nothing naming a $$ key may be forwarded): {} systematic sequences (every one of {} command templates alone and after a session-changing command, for db-token / user-token / no-db sessions, with and without an unresolved administrator conflict on a $$ key of an arbiter database) + {} seeded random sequences of length 2-6 over the templates and over every parser command word ({} words incl. an unknown one) with 0-4 arguments from a pool of $$ keys, patterns, names and numbers; distinct_nontrivial = distinct (command word, argument position holding a $$ key, session kind) cells executed; + {} non-administrator sessions over the real TCP / HTTP / WebSocket servers of one node, each after / between administrator sessions over the same servers (12 administrator requests first in every other round so that every HTTP worker has served one): no reply may contain the current $$ value or an unnamed $$ key name and the $$ keys are re-read after every session", systematic, tmpl.len(), n_random, words.len(), iso.other_sessions);
     ev.samples = st.samples.clone();
     ev.set("commands_executed_on_both_twins", json!(st.commands));
     ev.set("distinct_sequences", json!(st.distinct.len()));
